@@ -98,15 +98,42 @@ def code_constants(X):
         raise ValueError(f"diff_helper: expected one temperature return unit, found {names}")
     out["diff_helper_unit"] = names[0]
     out["diff_helper_keeps_unit"] = keeps[0]
-    # --- Unit.__pow__ looks at the offset; the conversion block of __array_ufunc__ can rescale the first operand
+    # --- the source text (ast.unparse, i.e. normalised layout) of the guards the three repairs consist of;
+    #     the Lean obligation compares them with the guards the model implements
     from unyt.unit_object import Unit as _Unit
 
+    def raises_invalid(stmt):
+        return (isinstance(stmt, ast.Raise) and isinstance(stmt.exc, ast.Call)
+                and getattr(stmt.exc.func, "id", None) == "InvalidUnitOperation")
+
+    # Unit.__pow__: the tests of every `if <test>: raise InvalidUnitOperation(...)`, in source order
     t = _fn_ast(_Unit.__pow__)
-    out["pow_checks_offset"] = any(isinstance(n, ast.Attribute) and n.attr == "base_offset" for n in ast.walk(t))
+    out["pow_raise_guards"] = [ast.unparse(n.test) for n in t.body if isinstance(n, ast.If) and n.body and raises_invalid(n.body[0])]
+    # diff_helper: inside `if u.dimensions is temperature:` — the refusal test and the label expression
+    t = _fn_ast(uaf.diff_helper)
+    dh_guard, dh_label, dh_outer = [], [], []
+    for n in t.body:
+        if isinstance(n, ast.If):
+            dh_outer.append(ast.unparse(n.test))
+            for b in n.body:
+                if isinstance(b, ast.If) and b.body and raises_invalid(b.body[0]):
+                    dh_guard.append(ast.unparse(b.test))
+                if isinstance(b, ast.Assign) and getattr(b.targets[0], "id", None) == "ret_units":
+                    dh_label.append(ast.unparse(b.value))
+    out["diff_helper_outer"] = dh_outer
+    out["diff_helper_raise_guards"] = dh_guard
+    out["diff_helper_label"] = dh_label
+    # __array_ufunc__: every `if <test>: inp0 = <expr>` — test and expression of the first-operand rescaling
     t = _fn_ast(ua.unyt_array.__array_ufunc__)
-    out["add_rescales_first"] = any(
-        isinstance(n, ast.Assign) and getattr(n.targets[0], "id", None) == "inp0" and isinstance(n.value, ast.BinOp)
-        and isinstance(n.value.op, ast.Mult) for n in ast.walk(t))
+    resc = []
+    for n in ast.walk(t):
+        if isinstance(n, ast.If):
+            for b in n.body:
+                if isinstance(b, ast.Assign) and getattr(b.targets[0], "id", None) == "inp0" and isinstance(b.value, ast.BinOp):
+                    resc.append([ast.unparse(n.test), ast.unparse(b.value),
+                                 [ast.unparse(x) for x in n.orelse]])
+    out["first_operand_rescaling"] = resc
+    out["diff_helper_keeps_unit"] = keeps[0]
     return out
 
 
@@ -166,12 +193,15 @@ def generate(X):
         + ", ".join(f"({cps(a)}, {cps(b)})" for a, b in cc["diff_point_to_delta"]) + "]\n\n"
         + "/-- _array_functions.py `diff_helper`: the unit a temperature `diff/ediff1d/ptp` is labelled with -/\n"
         + f"def diffHelperUnit : List Nat := {cps(cc['diff_helper_unit'])}\n\n"
-        + "/-- `diff_helper` gives that label only to units equal to it (`... if u == ... else u`) -/\n"
-        + f"def diffHelperKeepsUnit : Bool := {'true' if cc['diff_helper_keeps_unit'] else 'false'}\n\n"
-        + "/-- `Unit.__pow__` inspects `base_offset` (refusal of offset units) -/\n"
-        + f"def powChecksOffset : Bool := {'true' if cc['pow_checks_offset'] else 'false'}\n\n"
-        + "/-- the conversion block of `__array_ufunc__` has a branch that rescales the first operand -/\n"
-        + f"def addRescalesFirst : Bool := {'true' if cc['add_rescales_first'] else 'false'}\n\n"
+        + "/-- unit_object.py `Unit.__pow__`: source text of the tests of every `if …: raise InvalidUnitOperation` -/\n"
+        + "def powRaiseGuards : List (List Nat) := [" + ", ".join(cps(x) for x in cc["pow_raise_guards"]) + "]\n\n"
+        + "/-- _array_functions.py `diff_helper`: outer test, refusal tests and label expressions of the temperature branch -/\n"
+        + "def diffHelperOuter : List (List Nat) := [" + ", ".join(cps(x) for x in cc["diff_helper_outer"]) + "]\n"
+        + "def diffHelperRaiseGuards : List (List Nat) := [" + ", ".join(cps(x) for x in cc["diff_helper_raise_guards"]) + "]\n"
+        + "def diffHelperLabel : List (List Nat) := [" + ", ".join(cps(x) for x in cc["diff_helper_label"]) + "]\n\n"
+        + "/-- array.py `__array_ufunc__`: every `if <test>: inp0 = <expr> else: <stmts>` — (test, expr, else-statements) -/\n"
+        + "def firstOperandRescaling : List (List Nat × List Nat × List (List Nat)) := ["
+        + ", ".join(f"({cps(a)}, {cps(b)}, [" + ", ".join(cps(x) for x in c) + "])" for a, b, c in cc["first_operand_rescaling"]) + "]\n\n"
         + "end Unyt.Generated\n"
     )
     X.write_if_changed(os.path.join(X.GEN, "TempRows.lean"), text)
